@@ -68,6 +68,7 @@ func c13Run(w *ndWriter, rng *rand.Rand, askers int, classes []string, modes []s
 		}
 	})
 	var wg sync.WaitGroup
+	proto := fpgo.AskNewGenerics[int, int](0) // an Ask of its own, never sent: the askers' Asks are derived from it
 	for a := 1; a <= askers; a++ {
 		class := classes[rng.Intn(len(classes))]
 		mode := modes[rng.Intn(len(modes))]
@@ -76,9 +77,14 @@ func c13Run(w *ndWriter, rng *rand.Rand, askers int, classes []string, modes []s
 		}
 		r := &c13Req{req: a, msg: 100 + a, class: class, release: make(chan struct{})}
 		var ask *fpgo.AskDef[int, int]
-		if mode == "channel" {
+		switch {
+		case mode == "channel" && a%2 == 0:
+			ask = proto.NewByOptions(r.msg, make(chan int)) // derived from a constructed Ask (the methods New / NewByOptions): siblings alive together
+		case mode == "channel":
 			ask = fpgo.AskNewByOptionsGenerics[int, int](r.msg, make(chan int)) // caller-supplied unbuffered reply channel
-		} else {
+		case a%2 == 0:
+			ask = proto.New(r.msg)
+		default:
 			ask = fpgo.AskNewGenerics[int, int](r.msg)
 		}
 		mu.Lock()
